@@ -158,7 +158,8 @@ def _shard(arg):
 
 
 # --- fixed boundary list: always run, every tier -----------------------------------
-BOUNDARY = ["5.10.2020 8 o'clock - 5.10.2020 8 o'clock", "heute 8 uhr bis heute 8 uhr", "evening 8-12", "", " ", "#", "#tag", "# ", "##", ",;()", "\x00", "very early very early morning",
+BOUNDARY = ["today midnight - tomorrow midnight", "mitternacht bis mitternacht morgen", "noon to noon tomorrow", "12-12", "12:30 - 12:15",
+            "5.10.2020 8 o'clock - 5.10.2020 8 o'clock", "heute 8 uhr bis heute 8 uhr", "evening 8-12", "", " ", "#", "#tag", "# ", "##", ",;()", "\x00", "very early very early morning",
             "sehr früh sehr früh morgens", "late late late evening", "early early early early morning",
             "31.04.2020", "31.04.", "30.2.", "29.02.2019", "12.02.2020 - 31.", "31.6.2020 8:00",
             "31.04.2020 for 2 days", "30.02.2021 - 31.02.2021", "2 days 30.2.2020 - 31.2.2020",
